@@ -131,6 +131,7 @@ func Load(repo, goos, goarch string) (*Program, error) {
 	InitTypeCanon(p)
 	InitFieldCanon(p)
 	InitFuncCanon(p)
+	InitGlobalCanon(p)
 	return p, nil
 }
 
